@@ -45,6 +45,9 @@ CHECKS = {
  "C12": dict(engine="pure", technique="TLA+ decision spec (CliIgnoreFlags.tla) enumerated by TLC; all 448 cases replayed through the CLI's argv parser and WatchexecFilterer",
    text="CliIgnoreFlags.tla gives each of the six flags its documented meaning (the set of ignore sources it removes; shorthands expanded by a Normalise step), TLC checks RemovesExactly / Monotone / ShorthandMeaning and enumerates all 64 flag sets x 7 explicit options with the expected verdict of nine probe events; every case is run as a real command line (argv -> Args::parse -> normalise -> WatchexecFilterer::new -> check_event) against a project with a .gitignore, a .ignore, a global git ignore, a global watchexec ignore and a file hit by the built-in defaults. Complete enumeration in both tiers.",
    ref="6 C12", note="Trusted: TLC; the help text of each flag is the reference. HOME/XDG_CONFIG_HOME are faked once per process; argv goes through the cfg(watchexec_verif) verif module of the CLI library."),
+ "C19": dict(engine="pure", technique="TLA+ table spec (Signals.tla) enumerated by TLC; every row replayed through Signal::from_str / Display / to_nix and ProcessEnd::from(ExitStatus)",
+   text="Signals.tla holds the platform signal table, the first-class signals, the three spellings, the Windows control names with their precedence (TLC checks that STOP is the only clash) and the decoding of wait statuses; all 696 rows (every signal x spelling x letter case, every control name, display round trips of first-class and custom signals, exit codes 0-255, terminating signals with and without the core bit) are run through the real conversions and compared by OS signal number. Complete enumeration in both tiers; the spec is a table, the strength is its exhaustiveness.",
+   ref="6 C19", note="Trusted: TLC; Linux numbering; nix's list of signals. The --map-signal option parser is not covered."),
  "C20": dict(engine="pure", technique="TLA+ decision spec (Origins.tla) checked and enumerated by TLC; every case replayed on real directory trees",
    text="Origins.tla holds the documented marker table, the declarative IsOrigin/TypesOf and the VCS/software-suite partition; TLC checks that the ancestor walk equals the declarative definition and that every reported type lies in exactly one category, and enumerates every marker with the right and the wrong node type plus all chains up to the bound; each enumerated case is materialised as a real directory chain and origins()/types()/is_vcs()/is_soft() must answer as the spec does.",
    ref="6 C20", note="Trusted: TLC; the marker table and classification in Origins.tla (transcribed from the crate documentation) are the reference. Ancestors above the scratch root are outside the universe."),
